@@ -29,6 +29,8 @@ def main():
         subprocess.run(["git", "-C", "/repo", "checkout", "--", "."])
         subprocess.run(["git", "-C", "/repo", "clean", "-fdq", "-e", "target"])
     print(json.dumps(fired, indent=1))
+    if "--no-restore" in sys.argv:
+        return
     # restore the evidence of the clean tree for the checks that ran on the patched tree
     for p in ids:
         subprocess.run([os.path.join(HERE, "check"), p, "--tier", "quick"], capture_output=True, text=True, cwd=HERE)
